@@ -55,7 +55,7 @@ fn start_conn(cx: &mut Ctx, token: Token, mode: u32, peer_stays: bool) -> Conn {
             Rec::new(s, 1, Vec::new(), 0).encode(&mut wire);
         }
     }
-    let knobs = Knobs { read_style: cx.ch.pick(4), write_style: cx.ch.pick(4), read_pending: cx.ch.one_of(&[0u32, 4, 8]), write_pending: cx.ch.one_of(&[0u32, 6, 12]), deliver_style: cx.ch.pick(3), spurious_polls: 0 };
+    let knobs = Knobs { read_style: cx.ch.pick(4), write_style: cx.ch.pick(4), read_pending: cx.ch.one_of(&[0u32, 4, 8]), write_pending: cx.ch.one_of(&[0u32, 6, 12]), deliver_style: cx.ch.pick(3), spurious_polls: 0, fresh_wakers: cx.ch.chance(1, 2) };
     // the connection's own choice stream is seeded from the history's chooser (one draw), so the whole run stays a function of the choice list
     let sub_seed = (u64::from(cx.ch.pick(1 << 30)) << 16) ^ 0xC13;
     let mut sub = Ctx::new(Chooser::record(sub_seed), false);
@@ -92,7 +92,7 @@ fn run_token(cx: &mut Ctx, token: Token, mode: u32, bufsize: usize, runner_shut:
         Rec::new(PARAMS, 1, Vec::new(), 0).encode(&mut wire);
         Rec::new(STDIN, 1, Vec::new(), 0).encode(&mut wire);
     }
-    let knobs = Knobs { read_style: cx.ch.pick(4), write_style: cx.ch.pick(4), read_pending: cx.ch.one_of(&[0u32, 4]), write_pending: cx.ch.one_of(&[0u32, 4]), deliver_style: cx.ch.pick(3), spurious_polls: 0 };
+    let knobs = Knobs { read_style: cx.ch.pick(4), write_style: cx.ch.pick(4), read_pending: cx.ch.one_of(&[0u32, 4]), write_pending: cx.ch.one_of(&[0u32, 4]), deliver_style: cx.ch.pick(3), spurious_polls: 0, fresh_wakers: cx.ch.chance(1, 2) };
     let inner = std::mem::replace(cx, Ctx::new(Chooser::replay(Vec::new()), false));
     let segs = vec![Seg { end: wire.len(), gate: Gate::Open }];
     let world = World::new(inner, knobs, wire, segs);
